@@ -6,6 +6,7 @@ import (
 	"fmt"
 	"github.com/robfig/soy/ast"
 	"github.com/robfig/soy/soymsg"
+	"strconv"
 	"strings"
 	"sync"
 	"sync/atomic"
@@ -181,7 +182,7 @@ func loadBundleJS(e jsx.Engine, reg *template.Registry, js map[string]string) (s
 }
 
 // literal sites: how a string that originates in the template reaches the output
-var c14Sites = []string{"css-name-with-base", "literal-block", "string-literal", "string-literal-concat", "map-key", "map-value", "css-name", "msg-text", "msg-text-translated", "global-string", "global-list", "global-map", "param-value-literal", "let-content-text", "switch-case-literal", "directive-arg-literal"}
+var c14Sites = []string{"css-name-with-base", "literal-block", "string-literal", "string-literal-concat", "map-key", "map-value", "css-name", "msg-text", "msg-text-translated", "global-string", "global-list", "global-map", "param-value-literal", "let-content-text", "switch-case-literal", "directive-arg-literal", "msg-desc", "msg-meaning"}
 
 // c14Case builds a one-file bundle in which literal s reaches the output through the site; ok=false if the site cannot carry s.
 func c14Case(site, s string) (src string, globals map[string]ref.Value, want string, ok bool) {
@@ -228,6 +229,20 @@ func c14Case(site, s string) (src string, globals map[string]ref.Value, want str
 			w = "«" + s + "»"
 		}
 		return hdr + "{msg desc=\"d\"}" + s + "{/msg}" + ftr, nil, w, true
+	case "msg-desc", "msg-meaning":
+		// text for translators: it never reaches the output, and whatever a generator does with it (a comment, a
+		// goog.getMsg description) must leave the script well-formed
+		if strings.ContainsAny(s, "{}\"\\\n\r") || s == "" {
+			return "", nil, "", false // (attribute values are quoted strings: only text that needs no escaping)
+		}
+		if _, err := strconv.Unquote("\"" + s + "\""); err != nil {
+			return "", nil, "", false
+		}
+		attr := "desc=\"" + s + "\""
+		if site == "msg-meaning" {
+			attr = "meaning=\"" + s + "\" desc=\"d\""
+		}
+		return hdr + "{msg " + attr + "}hello{/msg}" + ftr, nil, "hello", true
 	case "global-string":
 		return hdr + "{G.str}" + ftr, map[string]ref.Value{"G.str": ref.Str(s)}, s, true
 	case "global-list":
